@@ -10,6 +10,7 @@ done
 echo "### seeded"
 for d in seeded/*/; do
   d=${d%/}; id=$(basename $d)
+  if grep -q '"retired": true' $d/meta.json; then echo "retired $id (neutralised by a later repair of the library; see meta.json)"; continue; fi
   props=$(python3 - "$d/meta.json" <<'PY'
 import json,sys,re
 m=json.load(open(sys.argv[1]))
